@@ -56,6 +56,7 @@ import r64_wdlayout
 import r65_returnroles
 import r66_optionsfamily
 import r67_setterfield
+import r68_nosplit
 import r06_validate
 import r07_cache
 import r08_toporder
@@ -270,6 +271,10 @@ def r56(ctx, prop):
 
 def r57(ctx, prop):
     return r57_roleslot.run(ctx.F())
+
+
+def r68(ctx, prop):
+    return r68_nosplit.run(ctx.F())
 
 
 def r67(ctx, prop):
@@ -563,9 +568,9 @@ PROPERTY_RULES = {
     "C11": [r9, r7],
     "C03": [r6, r17, r4, r5, r25, r24, r26, r31, r40, r43, r44, r67],
     "C04": [r4, r16, r25, r24, r26, r31, r10_selconst, r40, r46, r50, r65, r66],
-    "C05": [r4, r5, r16, r25, r24, r26, r31, r10_selconst, r39, r40, r43, r44, r46, r57, r65, r66],
+    "C05": [r4, r5, r16, r25, r24, r26, r31, r10_selconst, r39, r40, r43, r44, r46, r57, r65, r66, r68],
     "C06": [r4, r1_all, r21, r25, r24, r26, r28, r31, r39, r40, r20b, r50, r59, r66],
-    "C07": [r5, r4, r25, r24, r26, r31, r10_selconst, r40, r43, r46, r66],
+    "C07": [r5, r4, r25, r24, r26, r31, r10_selconst, r40, r43, r46, r66, r68],
     "C18": [r4, r16, r25, r24, r26, r35, r39, r40, r42, r44, r45, r18],
 }
 
